@@ -720,7 +720,65 @@ def env_and_config(head):
     return "rollout_baseline", f"{kind}{'+rewrap' if head.get('rewrap') else ''}:{head['cls']}:{head['policy']}"
 
 
+def unit_file(item):
+    """Instances stored in a file (.npz with float64 / int64 / bool / float32 fields, as plain numpy or an external
+    benchmark writes them), served by env.dataset(phase, filename) through every dataset class and read back through
+    data loaders of every batch size: dtypes, shapes, values and order are those of the file."""
+    import shutil
+    import tempfile
+
+    import numpy as np
+    from torch.utils.data import DataLoader
+
+    from rl4co.data import dataset as D
+    from rl4co.envs import TSPEnv
+
+    from ..core import VERIF
+
+    p = Partial()
+    N = item["N"]
+    root = os.path.join(VERIF, ".cache", "c17")
+    os.makedirs(root, exist_ok=True)
+    d = tempfile.mkdtemp(prefix="c17_", dir=root)
+    try:
+        arrays = dict(
+            locs=(np.arange(N * 4 * 2, dtype=np.float64).reshape(N, 4, 2) / 97.0 + 1e-12),
+            weight=np.arange(N * 3, dtype=np.int64).reshape(N, 3) * 7 - 5,
+            flag=(np.arange(N) % 2 == 0),
+            x32=(np.arange(N * 2, dtype=np.float32).reshape(N, 2) / 3.0),
+        )
+        np.savez(os.path.join(d, "inst.npz"), **arrays)
+        for cls_name in ("TensorDictDataset", "FastTdDataset", "TensorDictDatasetFastGeneration"):
+            env = TSPEnv(generator_params=dict(num_loc=4), dataset_cls=getattr(D, cls_name), data_dir=d, test_file="inst.npz")
+            ds = env.dataset(phase="test")
+            for b in range(1, N + 2):
+                rows = {k: [] for k in arrays}
+                for batch in DataLoader(ds, batch_size=b, shuffle=False, collate_fn=ds.collate_fn):
+                    for k in arrays:
+                        rows[k].append(batch[k])
+                p.add(states=1, transitions=-(-N // b), evaluations=N, distinct_count=1)
+                p.case(f"file|{cls_name}|{N}|{b}")
+                for k, want in arrays.items():
+                    got = torch.cat(rows[k], 0)
+                    w = torch.from_numpy(want)
+                    if got.dtype != w.dtype or tuple(got.shape) != tuple(w.shape) or not torch.equal(got, w):
+                        what = f"dtype {got.dtype} instead of {w.dtype}" if got.dtype != w.dtype else ("shape" if tuple(got.shape) != tuple(w.shape) else "values / order")
+                        p.violation(
+                            dict(property=PID, env="file_dataset", config=f"{cls_name}", observable="dtype" if got.dtype != w.dtype else "values", trigger=f"field:{w.dtype}".replace("torch.", "")),
+                            dict(kind="file", N=N, cls=cls_name, batch_size=b, field=k),
+                            f"file dataset {cls_name}: N={N} loader batch size {b}: field '{k}' comes back with {what}",
+                        )
+                        break
+                p.outcome(f"file|{cls_name}")
+    finally:
+        shutil.rmtree(d, ignore_errors=True)
+    p.sample(dict(part="file-backed dataset", N=N), cap=1)
+    return p
+
+
 def unit(item):
+    if item.get("head", {}).get("kind") == "file":
+        return unit_file(item)
     p = Partial()
     head = item["head"]
     env_name, config = env_and_config(head)
@@ -866,6 +924,8 @@ def main(tier):
         "not judged: aliasing side effects on the ORIGINAL (inner) dataset / TensorDict after wrapping (ExtraKeyDataset writes the extra key into the inner dataset's dicts; TensorDictDatasetFastGeneration.add_key edits in place)",
     ]
     items = build_items(tier, seed)
+    if not os.environ.get("VERIF_ONLY") or "file" in os.environ.get("VERIF_ONLY"):
+        items += [dict(head=dict(kind="file"), N=n) for n in ((3, 4) if tier == "quick" else (1, 2, 3, 4, 5))]
     rep.merge_all(pmap(unit, items))
     rep.extra["units_by_kind"] = {k: sum(1 for it in items if it["head"]["kind"] == k) for k in sorted({it["head"]["kind"] for it in items})}
     rep.extra["max_N"] = nmax
@@ -875,6 +935,9 @@ def main(tier):
 
 
 def replay(rec):
+    if rec.get("kind") == "file":
+        p = unit_file(dict(head=dict(kind="file"), N=rec["N"]))
+        return bool(p.violations), "; ".join(v["msg"] for v in p.violations[:2]) or "file-backed datasets return the stored dtypes, values and order"
     cfg = dict(rec["cfg"])
     found = run_config(cfg, {})
     want = (rec.get("signature") or {}).get("observable")
